@@ -15,6 +15,16 @@
                  `search_from = 0`, `while quote := QUOTES_RE.search(...)` and its body), as normalised
                  source text (`ast.unparse`); `Show.cutGo` is the deterministic reading of this loop
 
+  popSites     : the two places of `FortranReader.__next__` that return `self.pending.pop(0)` (the queue of
+                 `;`-separated statements), each with the statements that stand in front of the pop (ast walk
+                 of ford/reader.py); `incPrologue` / `incEpilogue` / `popsGuarded` / `includeKwLoose` (-> `Include.readerCfg`) = whether `self.include()` is called in front of the pop at
+                 the top (`incPrologue`: statements queued by an earlier call) and at the bottom (`incEpilogue`:
+                 first statement of the line just read) and whether the tree is the repaired variant
+                 (`guarded`: queue re-tested after `include()`, `include()` loops over files without
+                 statements, a line that leaves nothing to return reads on);
+  includeMethod: normalised source text of `FortranReader.include` (without its docstring);
+                 `Include.isIncludeStmt` / `includeName` / `look` are its reading
+
 A construct that cannot be found or is not recognised raises (= "tie broken", never a pass).
 """
 from __future__ import annotations
@@ -126,8 +136,101 @@ def mask_loop():
     return out
 
 
+PENDING_TESTS = ("len(self.pending) != 0", "len(self.pending) > 0", "self.pending")
+POP = "return self.pending.pop(0)"
+
+
+def reader_queue():
+    """The pops of the statement queue in `FortranReader.__next__` and the method `include`."""
+    src = (common.REPO / "ford" / "reader.py").read_text()
+    tree = ast.parse(src)
+    classes = [n for n in tree.body if isinstance(n, ast.ClassDef) and n.name == "FortranReader"]
+    if len(classes) != 1:
+        raise ValueError("ford/reader.py: class FortranReader not found")
+    meth = {n.name: n for n in classes[0].body if isinstance(n, ast.FunctionDef)}
+    if "__next__" not in meth or "include" not in meth:
+        raise ValueError("FortranReader: __next__ / include not found")
+    body = meth["__next__"].body
+    loops = [i for i, st in enumerate(body) if isinstance(st, ast.While)]
+    if len(loops) != 1:
+        raise ValueError("FortranReader.__next__: expected exactly one top-level `while` loop")
+    all_pops = [n for n in ast.walk(meth["__next__"]) if isinstance(n, ast.Return) and ast.unparse(n) == POP]
+
+    def inc_only(st):
+        return (isinstance(st, ast.If) and ast.unparse(st.test) in PENDING_TESTS and not st.orelse
+                and [ast.unparse(b) for b in st.body] == ["self.include()"])
+
+    sites = {}
+    for i, st in enumerate(body):
+        if not isinstance(st, ast.If):
+            continue
+        texts = [ast.unparse(b) for b in st.body]
+        if POP not in texts:
+            continue
+        if ast.unparse(st.test) not in PENDING_TESTS:
+            raise ValueError(f"FortranReader.__next__: the queue is popped under an unexpected test {ast.unparse(st.test)!r}")
+        before = texts[:texts.index(POP)]
+        for t in before:
+            if t not in ("self.include()", "self.prevdoc = False"):
+                raise ValueError(f"FortranReader.__next__: unrecognised statement in front of the pop: {t[:80]!r}")
+        inc_in_body = "self.include()" in before
+        inc_before = i > 0 and inc_only(body[i - 1])
+        if inc_in_body and inc_before:
+            raise ValueError("FortranReader.__next__: include() called twice in front of one pop")
+        place = "prologue" if i < loops[0] else "epilogue"
+        if place in sites:
+            raise ValueError(f"FortranReader.__next__: two pops of the queue in the {place}")
+        text = []
+        if inc_before:
+            text += ["if " + ast.unparse(body[i - 1].test) + ":", "    self.include()"]
+        text += ["if " + ast.unparse(st.test) + ":"] + ["    " + t for t in before] + ["    " + POP]
+        reads_on = None
+        if place == "epilogue":
+            nxt = ast.unparse(body[i + 1]) if i + 1 < len(body) else ""
+            guarded_else = (len(st.orelse) == 1 and isinstance(st.orelse[0], ast.If) and not st.orelse[0].orelse
+                            and "self.docbuffer" in ast.unparse(st.orelse[0].test))
+            if nxt == "return next(self)" and guarded_else:
+                reads_on = True
+                text += ["elif " + ast.unparse(st.orelse[0].test) + ": ...", "return next(self)"]
+            elif i + 1 == len(body) and st.orelse and not isinstance(st.orelse[0], ast.If):
+                reads_on = False
+                text += ["else: ..."]
+            else:
+                raise ValueError("FortranReader.__next__: unrecognised end of the method after the pop of the queue")
+        sites[place] = dict(includes=inc_in_body or inc_before, rechecked=inc_before, text=text, reads_on=reads_on)
+    if set(sites) != {"prologue", "epilogue"} or len(all_pops) != 2:
+        raise ValueError(f"FortranReader.__next__: expected one pop of the queue before and one after the loop, found {sorted(sites)} / {len(all_pops)} pops")
+    inc = meth["include"]
+    ibody = list(inc.body)
+    if ibody and isinstance(ibody[0], ast.Expr) and isinstance(ibody[0].value, ast.Constant):
+        ibody = ibody[1:]
+    itext = [ln for st in ibody for ln in ast.unparse(st).split("\n")]
+    loops_inc = bool(ibody) and isinstance(ibody[0], ast.While)
+    traits = [sites["prologue"]["rechecked"], sites["epilogue"]["rechecked"], bool(sites["epilogue"]["reads_on"]), loops_inc]
+    incl = [sites["prologue"]["includes"], sites["epilogue"]["includes"]]
+    if loops_inc and sites["epilogue"]["reads_on"] and all(r or not i for r, i in zip(traits[:2], incl)):
+        guarded = True
+    elif not any(traits):
+        guarded = False
+    else:
+        raise ValueError(f"FortranReader: unrecognised mixture of the plain and the re-testing variant of the queue pops {traits}")
+    # how an include statement is recognised and where its name starts
+    joined = "\n".join(itext)
+    strict = ".lower().startswith('include ')" in joined and "curpending[8:].strip()[1:-1]" in joined
+    loose = "self.INCLUDE_RE.match(self.pending[0])" in joined and "curpending[7:].strip()[1:-1]" in joined
+    if strict == loose:
+        raise ValueError("FortranReader.include: the test for an include statement / the slice of its name is not recognised")
+    if loose:
+        common.import_ford()
+        rx = getattr(importlib.import_module("ford.reader").FortranReader, "INCLUDE_RE", None)
+        if rx is None or rx.pattern != "include\\s*(?=['\"])" or int(rx.flags) != 34:
+            raise ValueError("FortranReader.INCLUDE_RE is not the pattern the model reads (include\\s*(?=['\"]), IGNORECASE)")
+    return sites, guarded, itext, loose
+
+
 def translate():
     rx = regex_sources()
+    sites, guarded, itext, kw_loose = reader_queue()
     steps, nbsp, dbl = initial_steps()
     mloop = mask_loop()
     b = lambda v: "true" if v else "false"
@@ -148,9 +251,23 @@ def translate():
               "def maskLoop : List String := ["]
     lines += ["  %s%s" % (lean_str(t), "," if i < len(mloop) - 1 else "") for i, t in enumerate(mloop)]
     lines += ["]", "",
+              "/-- the two pops of the statement queue in `FortranReader.__next__`: (place, the statements around the pop) -/",
+              "def popSites : List (String × List String) := ["]
+    for k, place in enumerate(("prologue", "epilogue")):
+        lines.append("  (%s, [%s])%s" % (lean_str(place), ", ".join(lean_str(t) for t in sites[place]["text"]), "," if k == 0 else ""))
+    lines += ["]", "",
+              "/-- where `self.include()` is called in front of those pops; the variant of the pops -/",
+              "def incPrologue : Bool := %s" % b(sites["prologue"]["includes"]),
+              "def incEpilogue : Bool := %s" % b(sites["epilogue"]["includes"]),
+              "def popsGuarded : Bool := %s" % b(guarded),
+              "def includeKwLoose : Bool := %s" % b(kw_loose), "",
+              "/-- `FortranReader.include` (normalised source text) -/",
+              "def includeMethod : List String := ["]
+    lines += ["  %s%s" % (lean_str(t), "," if i < len(itext) - 1 else "") for i, t in enumerate(itext)]
+    lines += ["]", "",
               "end Ford.Generated.C02", ""]
     common.write_if_changed(OUT, "\n".join(lines))
-    return rx, steps, nbsp, dbl, mloop
+    return rx, steps, nbsp, dbl, mloop, sites, guarded
 
 
 if __name__ == "__main__":
